@@ -26,9 +26,9 @@ type valSpec struct {
 	Name   string
 	Kind   string
 	Mk     func() any
-	JSON   func(j any) string        // "" = decoded JSON value j preserves the logged value
+	JSON   func(j any) string         // "" = decoded JSON value j preserves the logged value
 	Logfmt func(p logfmt.Pair) string // "" = logfmt pair preserves the logged value
-	Plain  bool                      // benign scalar (used where one value per kind suffices)
+	Plain  bool                       // benign scalar (used where one value per kind suffices)
 }
 
 func toValid(s string) string { return strings.ToValidUTF8(s, "\ufffd") }
@@ -445,7 +445,7 @@ func buildValSpecs() []valSpec {
 	anyPair := func(p logfmt.Pair) string { return "" }
 	add(valSpec{Name: "typed-nil-pointer", Kind: "fallback", Mk: func() any { return (*structV)(nil) }, JSON: anyOK, Logfmt: anyPair})
 	add(valSpec{Name: "level", Kind: "level", Mk: func() any { return slog.WarnLevel },
-		JSON:   func(j any) string { return jsonStringIs(j, slog.WarnLevel.String()) },
+		JSON: func(j any) string { return jsonStringIs(j, slog.WarnLevel.String()) },
 		Logfmt: func(p logfmt.Pair) string {
 			if p.Val != slog.WarnLevel.String() {
 				return "level text not preserved"
@@ -517,6 +517,51 @@ func buildValSpecs() []valSpec {
 		Logfmt: sliceLF(2, func(i int, t string) string {
 			if g, err := strconv.ParseUint(t, 10, 64); err != nil || g != uint64(us[i]) {
 				return "uint element not preserved"
+			}
+			return ""
+		})})
+	u64 := []uint64{7, math.MaxUint64, 1 << 63}
+	add(valSpec{Name: "[]uint64:max", Kind: "slice", Mk: func() any { return append([]uint64{}, u64...) },
+		JSON: sliceJSON(3, func(i int, j any) string { return jsonUintIs(j, u64[i]) }),
+		Logfmt: sliceLF(3, func(i int, t string) string {
+			if g, err := strconv.ParseUint(t, 10, 64); err != nil || g != u64[i] {
+				return "uint64 element not preserved"
+			}
+			return ""
+		})})
+	uu := []uint{0, math.MaxUint64}
+	add(valSpec{Name: "[]uint:max", Kind: "slice", Mk: func() any { return append([]uint{}, uu...) },
+		JSON: sliceJSON(2, func(i int, j any) string { return jsonUintIs(j, uint64(uu[i])) }),
+		Logfmt: sliceLF(2, func(i int, t string) string {
+			if g, err := strconv.ParseUint(t, 10, 64); err != nil || g != uint64(uu[i]) {
+				return "uint element not preserved"
+			}
+			return ""
+		})})
+	i8 := []int8{-128, 127}
+	add(valSpec{Name: "[]int8:minmax", Kind: "slice", Mk: func() any { return append([]int8{}, i8...) },
+		JSON: sliceJSON(2, func(i int, j any) string { return jsonIntIs(j, int64(i8[i])) }),
+		Logfmt: sliceLF(2, func(i int, t string) string {
+			if g, err := strconv.ParseInt(t, 10, 64); err != nil || g != int64(i8[i]) {
+				return "int8 element not preserved"
+			}
+			return ""
+		})})
+	i64 := []int64{math.MinInt64, math.MaxInt64}
+	add(valSpec{Name: "[]int64:minmax", Kind: "slice", Mk: func() any { return append([]int64{}, i64...) },
+		JSON: sliceJSON(2, func(i int, j any) string { return jsonIntIs(j, i64[i]) }),
+		Logfmt: sliceLF(2, func(i int, t string) string {
+			if g, err := strconv.ParseInt(t, 10, 64); err != nil || g != i64[i] {
+				return "int64 element not preserved"
+			}
+			return ""
+		})})
+	f32 := []float32{0.1, -2.5}
+	add(valSpec{Name: "[]float32:2", Kind: "slice", Mk: func() any { return append([]float32{}, f32...) },
+		JSON: sliceJSON(2, func(i int, j any) string { return jsonFloatIs(j, float64(f32[i])) }),
+		Logfmt: sliceLF(2, func(i int, t string) string {
+			if g, err := strconv.ParseFloat(t, 64); err != nil || !floatEq(g, float64(f32[i])) {
+				return "float32 element not preserved"
 			}
 			return ""
 		})})
